@@ -1,6 +1,33 @@
 #!/usr/bin/env python3
 """Writes /verif/MANIFEST.json from the table below (kept in one place so that it stays valid)."""
-import json, os
+import json, sys as _sys, os as _os
+_sys.path.insert(0, _os.path.join(_os.path.dirname(_os.path.abspath(__file__)), 'harness'))
+GROUP_FUNCS = {
+    'classes': 'get_valid_classes, get_multiplicity', 'simplify': '_simplify, _get_const_period, is_constant, is_repeating',
+    'lookup': 'get_meta, meta_valid', 'valid': 'check_valid', 'shapes': 'the result shapes of get_subset / from_sequence',
+    'values': '_get_changed_class, _global_slice_subset, the value arithmetic of _copy_slice and of the interleaving loops',
+    'insert': '_change_class, the reclassification and dispatch of _insert, _insert_slice, _insert_non_slice, _insert_sample',
+    'subset': 'the class dispatch of get_subset, _copy_slice, _copy_sample',
+    'wrapsplit': 'the index expressions and trimming loop of NiftiWrapper.split',
+    'wrapmerge': 'the result shape and fill slices of NiftiWrapper.from_sequence',
+    'stack': 'the count checks of get_shape, the thorough check of _chk_order', 'stackadd': 'add_dcm, _chk_congruent, _chk_close, _chk_equal',
+    'header': 'the slice-timing block of to_nifti', 'data': 'the trimming block and file index expressions of get_data'}
+
+
+def tie_text(pid):
+    try:
+        import source_groups as SG
+    except Exception:
+        return ''
+    gs = SG.DEPS.get(pid, [])
+    if not gs:
+        return ''
+    return (' Tie by proof: ' + '; '.join(GROUP_FUNCS[g] for g in gs) + ' are translated from the Python source on every run '
+            '(tools/gen_code.py) and proved equal to the model functions these theorems are about (Props/Source_{' + ','.join(gs) + '}.lean); '
+            'an edit of one of them re-opens exactly these obligations.')
+
+
+import os
 
 HERE = os.path.dirname(os.path.abspath(__file__))
 VERIF = os.path.normpath(os.path.join(HERE, '..'))
@@ -112,7 +139,7 @@ def main():
             'evidence_file': 'evidence/%s.json' % pid,
             'replay_cmd_template': 'tools/check %s --replay {path}' % pid,
             'engine': 'lean-model',
-            'level_claimed': {'category': 'proof', 'text': c['text'], 'design_ref': c['design']},
+            'level_claimed': {'category': 'proof', 'text': c['text'] + tie_text(c['id'] if 'id' in c else pid), 'design_ref': c['design']},
             'level_note': c['note'],
             'technique': c['technique'],
         })
